@@ -231,6 +231,49 @@ define flow
   bot report lookup
 '''
 
+# phase 5: flows in which the LLM-written message is a LATER utterance of the call (after a predefined one), and the documented
+# `bot remove last message` convention (a predefined message whose text is the control script of generate_async)
+V1_CTRL_CO = '''
+define user express greeting
+  "hello"
+
+define user ask two things
+  "two things"
+
+define user ask and retract
+  "say and retract"
+
+define user ask three things
+  "three things"
+
+define bot express greeting
+  "Hello, there!"
+
+define bot remove last message
+  "(remove last message)"
+
+define flow
+  user express greeting
+  bot express greeting
+
+define flow
+  user ask two things
+  bot express greeting
+  bot inform second
+
+define flow
+  user ask and retract
+  bot inform first
+  bot remove last message
+  bot inform third
+
+define flow
+  user ask three things
+  bot inform first
+  bot inform second
+  bot express greeting
+'''
+
 V2_INTENT_CO = '''
 import core
 import llm
@@ -327,9 +370,14 @@ def v1_config(mode, model="gpt-3.5-turbo-instruct"):
         extra = "passthrough: True\n"
     elif mode in ("dialog_q", "single_call_q"):
         co = V1_QUOTE_CO
+    elif mode in ("dialog_c", "single_call_c"):
+        co = V1_CTRL_CO
+    elif mode == "multi_step_c":
+        co = V1_CTRL_CO
+        extra = "enable_multi_step_generation: True\n"
     with contextlib.redirect_stdout(io.StringIO()):
         cfg = RailsConfig.from_content(co, extra + MODELS % model)
-    if mode in ("single_call", "single_call_q"):
+    if mode in ("single_call", "single_call_q", "single_call_c"):
         cfg.rails.dialog.single_call.enabled = True
     return cfg
 
@@ -342,7 +390,7 @@ def v2_config(mode, model="gpt-3.5-turbo-instruct"):
         return RailsConfig.from_content(co, V2_YAML % model)
 
 
-V1_MODES = ["dialog", "single_call", "multi_step", "general", "passthrough", "dialog_q", "single_call_q"]
+V1_MODES = ["dialog", "single_call", "multi_step", "general", "passthrough", "dialog_q", "single_call_q", "dialog_c", "single_call_c", "multi_step_c"]
 V2_MODES = ["v2_intent", "v2_flowgen", "v2_value", "v2_utter", "v2_quote"]
 
 
@@ -356,19 +404,19 @@ async def llm_lookup(llm):
 _APP_CACHE = {}
 
 
-def make_app(mode, responses, fallback, model="gpt-3.5-turbo-instruct", fresh=False):
+def make_app(mode, responses, fallback, model="gpt-3.5-turbo-instruct", fresh=False, verbose=False):
     """One LLMRails instance per (mode, model) and worker process, reset between conversations:
     the script of the fake LLM, the events-history cache and (1.0) the flow table, which multi-step
     generation extends with dynamic flows.  `fresh=True` builds a new instance (replay, shrinking)."""
     from nemoguardrails import LLMRails
 
     setup()
-    key = (mode, model)
+    key = (mode, model, verbose)
     if fresh or key not in _APP_CACHE:
         cfg = v2_config(mode, model) if mode.startswith("v2") else v1_config(mode, model)
         llm = ScriptLLM(responses=list(responses), fallback=fallback)
         with contextlib.redirect_stdout(io.StringIO()):
-            app = LLMRails(cfg, llm=llm)
+            app = LLMRails(cfg, llm=llm, verbose=True) if verbose else LLMRails(cfg, llm=llm)
         if mode.startswith("v2"):
             app.runtime.disable_async_execution = True
         if mode in ("dialog_q", "single_call_q"):
@@ -387,34 +435,100 @@ def make_app(mode, responses, fallback, model="gpt-3.5-turbo-instruct", fresh=Fa
     return app, llm
 
 
-def run_conversation(mode, turns, responses, fallback, context=None, per_turn_cpu=8.0, model="gpt-3.5-turbo-instruct"):
-    """Drive the real `LLMRails.generate` turn by turn.  Returns per-turn observations:
+ALL_LOG_OPTIONS = {"log": {"activated_rails": True, "llm_calls": True, "internal_events": True, "colang_history": True}, "output_vars": True, "llm_output": True}
+# "nocache": the implicit events-history cache is empty at every call - a second LLMRails instance / a restarted server gets the
+# same message history and has to rebuild the events from the messages (incl. the earlier, LLM-written, assistant messages)
+# "retctx": the deprecated `return_context=True` (returns a pair message, context)
+APIS_V1 = ["messages", "options", "prompt", "state", "stream", "verbose", "nocache", "retctx"]
+APIS_V2 = ["state", "verbose"]
+
+
+def _one_response(res):
+    """the single message of a GenerationResponse (anything else is reported as it is: the oracle calls it malformed)"""
+    r = getattr(res, "response", res)
+    if isinstance(r, list) and len(r) == 1:
+        return r[0]
+    return {"malformed-response": repr(r)[:200]}
+
+
+def _call(app, mode, api, msg, hist, state):
+    """one turn through the public interface `api`; returns (reply, new state)"""
+    if mode.startswith("v2"):
+        res = app.generate(messages=[{"role": "user", "content": msg}], state=state)
+        return res.response, res.state
+    if api in ("messages", "verbose", "nocache"):
+        if api == "nocache":
+            app.events_history_cache.clear()
+        hist.append({"role": "user", "content": msg})
+        return app.generate(messages=hist), state
+    if api == "options":
+        hist.append({"role": "user", "content": msg})
+        res = app.generate(messages=hist, options=dict(ALL_LOG_OPTIONS))
+        str(res.output_data), str(res.log)  # assembled from the same events: they must be there and printable
+        return _one_response(res), state
+    if api == "retctx":
+        hist.append({"role": "user", "content": msg})
+        with warnings.catch_warnings():
+            warnings.simplefilter("ignore")
+            r = app.generate(messages=hist, return_context=True)
+        if isinstance(r, tuple) and len(r) == 2 and isinstance(r[1], dict):
+            return r[0], state
+        return {"malformed-response": repr(r)[:200]}, state
+    if api == "prompt":
+        r = app.generate(prompt=msg)
+        return ({"role": "assistant", "content": r} if isinstance(r, str) else {"malformed-response": repr(r)[:200]}), state
+    if api == "state":
+        res = app.generate(messages=[{"role": "user", "content": msg}], state=state)
+        return _one_response(res), res.state
+    if api == "stream":
+        from nemoguardrails.streaming import StreamingHandler
+
+        hist.append({"role": "user", "content": msg})
+
+        async def go():
+            h = StreamingHandler()
+            return await asyncio.wait_for(app.generate_async(messages=hist, streaming_handler=h), timeout=30)
+
+        loop = asyncio.new_event_loop()
+        try:
+            return loop.run_until_complete(go()), state
+        finally:
+            loop.close()
+    raise ValueError(api)
+
+
+def run_conversation(mode, turns, responses, fallback, context=None, per_turn_cpu=8.0, model="gpt-3.5-turbo-instruct", api=None):
+    """Drive the real `LLMRails.generate` turn by turn through the public interface `api` (plain messages, generation options with
+    every log switched on, `prompt=`, an explicit `state`, a streaming handler, an instance created with `verbose=True`).
+    Returns per-turn observations:
     {"reply": <returned object, JSON-able>} | {"raised": "Type: msg", "where": "file:func"} | {"hang": True}."""
     out = {"turns": [], "llm_calls": 0}
+    api = api or ("state" if mode.startswith("v2") else "messages")
+    verbose = api == "verbose"
     try:
-        with cpu_watchdog(per_turn_cpu):
-            app, llm = make_app(mode, responses, fallback, model)
+        with cpu_watchdog(per_turn_cpu), contextlib.redirect_stdout(io.StringIO()):
+            app, llm = make_app(mode, responses, fallback, model, verbose=verbose)
     except Hang:
         out["setup"] = "hang"
         return out
     hist = []
-    if context and not mode.startswith("v2"):
+    if context and not mode.startswith("v2") and api not in ("prompt", "state"):
         hist.append({"role": "context", "content": dict(context)})
     state = {}
     for msg in turns:
         rec = {}
         try:
             with cpu_watchdog(per_turn_cpu), contextlib.redirect_stdout(io.StringIO()):
-                if mode.startswith("v2"):
-                    res = app.generate(messages=[{"role": "user", "content": msg}], state=state)
-                    state = res.state
-                    rec["reply"] = res.response
-                else:
-                    hist.append({"role": "user", "content": msg})
-                    r = app.generate(messages=hist)
-                    rec["reply"] = r
-                    if isinstance(r, dict):
-                        hist.append(r)
+                if verbose:
+                    logging.disable(logging.NOTSET)  # the verbose handler only sees records when logging is on
+                try:
+                    r, state = _call(app, mode, api, msg, hist, state)
+                finally:
+                    if verbose:
+                        logging.disable(logging.CRITICAL)
+                rec["reply"] = r
+                if not mode.startswith("v2") and isinstance(r, dict) and api not in ("prompt", "state"):
+                    hist.append(r)
         except Hang as e:
             import traceback
 
